@@ -78,18 +78,23 @@ checks = {
         extra_assume=['the reference (uninterrupted) run is computed by the same operators with no pause/play and compared inside TLC; step entries carry the status message and the paused flag sampled at the entry of the real step function'],
         rule='every sequence of <=K pause/play/resume requests between any two callbacks (and re-entrant pause/play from step bodies and listeners); executed steps, their arguments, status at entry, outputs and outcome compared with the uninterrupted run'),
     'c06': dict(
-        pid='C06', doc='C06 - a wake-up is never lost to a concurrent pause or interruption (process part; awaitables: module Awaitables).',
-        inv=['C06_NoLostWakeup', 'C06_ResumeValue'], prop=[],
+        pid='C06', doc='C06 - a wake-up is never lost to a concurrent pause or interruption (resume calls and awaited futures/children).',
+        inv=['C06_NoLostWakeup', 'C06_ResumeValue', 'C06_NoLostCompletion'], prop=[],
         body='''    alpha = ['resume', 'pause', 'play', 'kill']
     ov = [('ResumeVals', 'MCResumeVals')]
     xd = 'MCResumeVals == {"v1", "v2", "NULL"}\\n'
     wait = ['P03', 'P05', 'P06', 'P10', 'P13', 'P21', 'P22']
     if tier == 'quick':
-        mc = [dict(name='C06_env', progs=C.fam(wait), plans=[[]], alphabet=alpha, k=4, invariants=INV, overrides=ov, extra_defs=xd)]
-        rp = [dict(name='C06_env', progs=C.fam(['P03', 'P05', 'P10']), plans=[[]], alphabet=alpha, k=3, overrides=ov, extra_defs=xd)]
+        mc = [dict(name='C06_env', progs=C.fam(wait), plans=[[]], alphabet=alpha, k=4, invariants=INV, overrides=ov, extra_defs=xd),
+              dict(name='C06_awaitables', progs=C.fam(['W1', 'W3', 'W4']), plans=[[]], alphabet=['complete', 'pause', 'play', 'kill'], k=4, invariants=INV)]
+        rp = [dict(name='C06_env', progs=C.fam(['P03', 'P05', 'P10']), plans=[[]], alphabet=alpha, k=3, overrides=ov, extra_defs=xd),
+              dict(name='C06_awaitables', progs=C.fam(['W1', 'W3']), plans=[[]], alphabet=['complete', 'pause', 'play', 'kill'], k=3)]
     else:
-        mc = [dict(name='C06_env', progs=C.fam(wait), plans=[[]], alphabet=alpha, k=6, invariants=INV, overrides=ov, extra_defs=xd)]
-        rp = [dict(name='C06_env', progs=C.fam(wait), plans=[[]], alphabet=alpha, k=4, overrides=ov, extra_defs=xd)]''',
+        mc = [dict(name='C06_env', progs=C.fam(wait), plans=[[]], alphabet=alpha, k=6, invariants=INV, overrides=ov, extra_defs=xd),
+              dict(name='C06_awaitables', progs=C.fam(['W1', 'W2', 'W3', 'W4', 'W5']), plans=[[]], alphabet=['complete', 'pause', 'play', 'kill'], k=5, invariants=INV)]
+        rp = [dict(name='C06_env', progs=C.fam(wait), plans=[[]], alphabet=alpha, k=4, overrides=ov, extra_defs=xd),
+              dict(name='C06_awaitables', progs=C.fam(['W1', 'W2', 'W3', 'W5']), plans=[[]], alphabet=['complete', 'pause', 'play', 'kill'], k=4),
+              dict(name='C06_children', progs=C.fam(['W1', 'W3']), plans=[[]], alphabet=['complete', 'pause', 'play'], k=4, run_kw={'children': True})]''',
         extra_assume=['resume values {v1, v2, no value}; the first accepted resume of a wait must be what the continuation receives, exactly once'],
         rule='every order and placement of resume(v)/resume(v2)/resume() relative to pause/play/kill between any two callbacks for every waiting program'),
     'c13': dict(
